@@ -248,33 +248,114 @@ def rk4_startup(F, solver_prefix, fields, O):
 
     Returns dict with the 4-stage tableau, the time advance, and the pushes made in the loop body / after it."""
     body = method_of(F, solver_prefix, None, "runge_kutta")
-    loops = [n for n in walk(body["body"], into_closures=False) if n.get("k") == "For"]
+    # the start-up loop: the loop (of any form) inside which the user derivative is called
+    def calls_user(n):
+        return any(x.get("k") == "Call" and "ovl" in x for x in walk(n))
+    loops = [n for n in walk(body["body"], into_closures=False) if n.get("k") in ("For", "While", "Loop") and calls_user(n["body"])]
     if len(loops) != 1:
-        raise Missing("%s::runge_kutta: expected one for loop" % solver_prefix)
+        raise Missing("%s::runge_kutta: expected one loop that evaluates the derivative, found %d" % (solver_prefix, len(loops)))
     loop = loops[0]
     out = {"body": body, "iterations_param": body["params"][1].get("name") if len(body["params"]) > 1 else None}
-    # the loop must run `iterations` times: 0..iterations
-    rng = peel(loop["iter"])
+    itname = out["iterations_param"]
+    itsym = sym.S(itname) if itname else None
+    # how the loop counts, and what its per-iteration variable is in the first / in a later iteration:
+    #   for i in 0..iterations            -> i = 0 / 1
+    #   while remaining > 0 (from iterations, −1 per iteration)  -> remaining = iterations / iterations − 1   (rules/caps.py)
+    #   for first in once(A).chain(repeat(B)).take(iterations)   -> A / B
     ok_range = False
-    if rng.get("k") == "Struct" and rng["def"].endswith("ops::Range"):
-        d = {f["name"]: peel(f["e"]) for f in rng["fields"]}
-        ok_range = d["start"].get("v") == "0" and d["end"].get("k") == "Local" and d["end"]["name"] == out["iterations_param"]
+    first_val = later_val = None
+    counter_id = None
+    if loop.get("k") == "For":
+        rng = peel(loop["iter"])
+        if rng.get("k") == "Struct" and rng["def"].endswith("ops::Range"):
+            d = {f["name"]: peel(f["e"]) for f in rng["fields"]}
+            ok_range = d["start"].get("v") == "0" and d["end"].get("k") == "Local" and d["end"]["name"] == itname
+            first_val, later_val = sp.Integer(0), sp.Integer(1)
+        else:
+            x = loop["iter"]
+            chain = []
+            while isinstance(x, dict) and x.get("k") == "MCall":
+                chain.append(x)
+                x = x["recv"]
+            names = [c["name"] for c in chain]
+            xo = peel(x)
+            if names and names[0] == "take" and "chain" in names and xo.get("k") == "Call" and (callee(xo) or "").endswith("iter::once"):
+                tk = chain[0]
+                ch = [c for c in chain if c["name"] == "chain"][0]
+                rp = peel(ch["args"][0])
+                if rp.get("k") == "Call" and (callee(rp) or "").endswith("iter::repeat") and peel(tk["args"][0]).get("k") == "Local" and peel(tk["args"][0])["name"] == itname:
+                    def lit(e):
+                        e = peel(e)
+                        return sp.true if e.get("v") == "true" else sp.false if e.get("v") == "false" else (sp.Integer(int(e["v"])) if e.get("lit") == "int" else None)
+                    first_val, later_val = lit(xo["args"][0]), lit(rp["args"][0])
+                    ok_range = first_val is not None and later_val is not None
+    elif loop.get("k") == "While":
+        from rules import caps
+        okc, form, why = caps.bounded_by_cap(body, loop)
+        c = peel(loop["c"])
+        if okc and form == "down-counter":
+            cnt = [x for x in (peel(c.get("l", {})), peel(c.get("r", {}))) if x.get("k") == "Local"][0]
+            counter_id = cnt["id"]
+            init = [x for x in walk(body["body"]) if x.get("k") == "LetS" and x["pat"].get("k") == "Bind" and x["pat"]["id"] == counter_id and "init" in x]
+            ok_range = len(init) == 1 and peel(init[0]["init"]).get("k") == "Local" and peel(init[0]["init"])["name"] == itname
+            first_val, later_val = itsym, itsym - 1
+        elif okc and form == "up-counter":
+            cnt = peel(c["l"]) if peel(c["l"]).get("k") == "Local" and peel(c["l"]).get("name") != itname else peel(c["r"])
+            counter_id = cnt["id"]
+            init = [x for x in walk(body["body"]) if x.get("k") == "LetS" and x["pat"].get("k") == "Bind" and x["pat"]["id"] == counter_id and "init" in x]
+            ok_range = len(init) == 1 and peel(init[0]["init"]).get("v") == "0" and c.get("op") in ("Lt", "Gt")
+            first_val, later_val = sp.Integer(0), sp.Integer(1)
+    if first_val is None:
+        raise Missing("%s::runge_kutta: the start-up loop is neither `for i in 0..iterations`, a counter loop over `iterations`, nor a first-flag iterator of length `iterations`" % solver_prefix)
     out["range_ok"] = ok_range
+    from bsa.hir import pat_binds as _pb
     for first in (True, False):
         m = StepModel(F, body, fields, {"O": O})
         it = m.it
         log = []
         it.fields["self.prev_values"] = nalg.DequeVal("prev_values", [], log)
         it.fields["self.prev_derivatives"] = nalg.DequeVal("prev_derivatives", [], log)
-        isym = sym.S("i")
+        val = first_val if first else later_val
 
-        def hook(interp, node, c, first=first):
-            if c.has(isym):
-                # `i != 0`
-                return bool(c.subs(isym, 0 if first else 1))
+        def hook(interp, node, c):
+            if c is sp.true or c is sp.false:
+                return bool(c)
+            cc = c.subs(itsym, sp.Symbol(itname, integer=True, positive=True)) if itsym is not None else c
+            if cc == sp.true or cc == sp.false:
+                return bool(cc)
+            r_ = sp.simplify(cc)
+            if r_ in (sp.true, sp.false):
+                return bool(r_)
             raise sym.Unsupported(node, "unexpected branch in runge_kutta: %s" % c)
         it.if_hook = hook
-        it.bind(loop["pat"], isym)
+        # loop-invariant lets in front of the loop (copies of dt / half, closures): evaluate what can be evaluated
+        for st in cfg.preceding_statements(body["body"], loop):
+            if st.get("k") == "LetS" and "init" in st:
+                try:
+                    it.run_stmt(st)
+                except Exception:
+                    pass
+        def set_counter(v_):
+            if loop.get("k") == "For":
+                it.bind(loop["pat"], v_)
+            elif counter_id is not None:
+                it.env[counter_id] = v_
+        if not first:
+            # a later iteration: locals the body itself flips (a `first` flag consumed with mem::replace) are as the first iteration left them;
+            # the solver state is put back to the symbolic (time, y) so that the stages read as one step from there
+            keep = {k: it.fields.get(k) for k in ("self.state", "self.time")}
+            set_counter(first_val)
+            try:
+                it.ev(loop["body"])
+            except (sym.Break, sym.Continue):
+                pass
+            for k, v_ in keep.items():
+                it.fields[k] = v_
+            del log[:]
+            del it.user_calls[:]
+            it.fields["self.prev_values"] = nalg.DequeVal("prev_values", [], log)
+            it.fields["self.prev_derivatives"] = nalg.DequeVal("prev_derivatives", [], log)
+        set_counter(val)
         it.ev(loop["body"])
         t, dt, y = sym.S("time"), sym.S("dt"), sym.S("y")
         n_loop_calls = len(it.user_calls)
